@@ -232,3 +232,7 @@ Qed.
 Lemma hexagons_negative_radius :
   forall R start, R < 0 -> concentric_hexagons R start = [start].
 Proof. intros R start H. unfold concentric_hexagons. destruct R; try lia. reflexivity. Qed.
+
+Lemma ex_hexagons :
+  concentric_hexagons 1 (0, 0) = [(0, 0); (0, -1); (1, 0); (1, 1); (0, 1); (-1, 0); (-1, -1)] /\ 0 <= 1.
+Proof. split; [reflexivity | lia]. Qed.
